@@ -240,6 +240,7 @@ func C07(p *core.Program, r *core.Report) {
 	}
 
 	checkAgentsAlwaysDrain(p, r)
+	checkMuxChildrenGuarded(p, r)
 	// epidemic routing admits a bundle for a local endpoint to dispatching (and so to local delivery) by the
 	// destination it recorded in the store item when the bundle was announced: that record must be written back
 	checkPropertiesPersisted(p, r)
@@ -590,3 +591,17 @@ func reaches(a, b ssa.Instruction) bool {
 }
 
 var _ = token.ADD
+
+// checkMuxChildrenGuarded: MuxAgent.children is edited in place (unregister
+// removes an element with append(s[:i], s[i+1:]...)), so every read of the
+// list — also of a copy of its slice header — must happen under the mux lock:
+// a reader walking an old header while an element is removed sees one child
+// twice and another not at all (HasEndpoint is transiently false for a
+// registered endpoint: a bundle is not delivered, a status report is sent to
+// ourselves).
+func checkMuxChildrenGuarded(p *core.Program, r *core.Report) {
+	g := newGuardedEngine(p)
+	n := g.checkGuarded(r, []guardedField{{agentPkg, "MuxAgent", "children", "pkg/agent.MuxAgent.Mutex"}}, true)
+	r.Count("accesses to MuxAgent.children", n)
+	r.Min("accesses to MuxAgent.children", 5)
+}
